@@ -275,6 +275,110 @@ pub fn spaces(tier: Tier) -> Vec<Space> {
             }
         }));
     }
+    // (a3) content sweeps: every arity-1 opcode on EVERY item of length 1 and 2 (65792 items); every arity-2 opcode on every
+    // ordered pair of 1-byte items (65536 pairs) - decides content-dependent behaviour (sign bytes, 0x80/0x00 tails,
+    // negative zero, byte values that look like opcodes) instead of sampling it through the 22-value alphabet
+    {
+        let unary: Vec<u8> = specs.iter().filter(|s| s.arity == 1).map(|s| s.op).collect();
+        let nu = unary.len() as u64;
+        v.push(Space::new("unary-every-1-2-byte-item", nu * 65792, move |case, acc| {
+            let c = crate::engine::coords(case.idx, &[nu, 65792]);
+            let op = unary[c[0] as usize];
+            let item: Vec<u8> = if c[1] < 256 { vec![c[1] as u8] } else { vec![((c[1] - 256) >> 8) as u8, ((c[1] - 256) & 0xff) as u8] };
+            let st: Stack = vec![item];
+            let mut toks = pushes_for(&st, &vec![]);
+            toks.push(Tok::Op(op));
+            let desc = || json!({"op": opname(op), "initial_stack": show_stack(&st)});
+            if let Some(d) = check_program(&toks, acc, case, &desc) {
+                report(acc, case, &toks, &d, &desc);
+            }
+        }));
+        let binary: Vec<u8> = specs.iter().filter(|s| s.arity == 2).map(|s| s.op).collect();
+        let nb = binary.len() as u64;
+        v.push(Space::new("binary-every-1-byte-pair", nb * 65536, move |case, acc| {
+            let c = crate::engine::coords(case.idx, &[nb, 256, 256]);
+            let op = binary[c[0] as usize];
+            let st: Stack = vec![vec![c[1] as u8], vec![c[2] as u8]];
+            let mut toks = pushes_for(&st, &vec![]);
+            toks.push(Tok::Op(op));
+            let desc = || json!({"op": opname(op), "initial_stack": show_stack(&st)});
+            if let Some(d) = check_program(&toks, acc, case, &desc) {
+                report(acc, case, &toks, &d, &desc);
+            }
+        }));
+    }
+    // (a3') thorough: every arity-2 opcode on every (2-byte item, 1-byte item) pair in both orders
+    if thorough {
+        let binary: Vec<u8> = specs.iter().filter(|s| s.arity == 2).map(|s| s.op).collect();
+        let nb = binary.len() as u64;
+        v.push(Space::new("binary-every-2-byte-x-1-byte-pair", nb * 65536 * 256 * 2, move |case, acc| {
+            let c = crate::engine::coords(case.idx, &[nb, 65536, 256, 2]);
+            let op = binary[c[0] as usize];
+            let (two, one) = (vec![(c[1] >> 8) as u8, (c[1] & 0xff) as u8], vec![c[2] as u8]);
+            let st: Stack = if c[3] == 0 { vec![two, one] } else { vec![one, two] };
+            let mut toks = pushes_for(&st, &vec![]);
+            toks.push(Tok::Op(op));
+            let desc = || json!({"op": opname(op), "initial_stack": show_stack(&st)});
+            if let Some(d) = check_program(&toks, acc, case, &desc) {
+                report(acc, case, &toks, &d, &desc);
+            }
+        }));
+    }
+    // (a4) numeric sweep: every arithmetic/comparison opcode of arity 2 on a x b and b x a for every a in -N..=N and b over
+    // 24 values (small, byte-boundary, multiples of 1000, 2/3-byte limits); WITHIN on every triple over -4..=4;
+    // unary arithmetic on every a in -N..=N and around every power of two up to 2^31
+    {
+        let nmax: i64 = if thorough { 70000 } else { 5000 };
+        let bs: Vec<i64> = vec![-1000, -256, -255, -129, -128, -127, -2, -1, 0, 1, 2, 3, 7, 10, 127, 128, 129, 255, 256, 1000, 32767, 32768, 65536, 8388607];
+        let ops: Vec<u8> = vec![0x93, 0x94, 0x95, 0x96, 0x97, 0x9a, 0x9b, 0x9c, 0x9d, 0x9e, 0x9f, 0xa0, 0xa1, 0xa2, 0xa3, 0xa4];
+        let (na, nbv, no) = ((2 * nmax + 1) as u64, bs.len() as u64, ops.len() as u64);
+        v.push(Space::new("numeric-sweep-binary", no * na * nbv * 2, move |case, acc| {
+            let c = crate::engine::coords(case.idx, &[no, na, nbv, 2]);
+            let op = ops[c[0] as usize];
+            let a = ri::enc(&num_bigint::BigInt::from(c[1] as i64 - nmax));
+            let b = ri::enc(&num_bigint::BigInt::from(bs[c[2] as usize]));
+            let st: Stack = if c[3] == 0 { vec![a, b] } else { vec![b, a] };
+            let mut toks = pushes_for(&st, &vec![]);
+            toks.push(Tok::Op(op));
+            let desc = || json!({"op": opname(op), "initial_stack": show_stack(&st)});
+            if let Some(d) = check_program(&toks, acc, case, &desc) {
+                report(acc, case, &toks, &d, &desc);
+            }
+        }));
+        v.push(Space::new("within-triples", 9 * 9 * 9, move |case, acc| {
+            let c = crate::engine::coords(case.idx, &[9, 9, 9]);
+            let st: Stack = c.iter().map(|x| ri::enc(&num_bigint::BigInt::from(*x as i64 - 4))).collect();
+            let mut toks = pushes_for(&st, &vec![]);
+            toks.push(Tok::Op(0xa5));
+            let desc = || json!({"op": "OP_WITHIN", "initial_stack": show_stack(&st)});
+            if let Some(d) = check_program(&toks, acc, case, &desc) {
+                report(acc, case, &toks, &d, &desc);
+            }
+        }));
+        let uops: Vec<u8> = vec![0x8b, 0x8c, 0x8f, 0x90, 0x91, 0x92, 0x81, 0x82, 0x69, 0x73];
+        let mut avals: Vec<i64> = (-nmax..=nmax).collect();
+        for k in 11..=31u32 {
+            for d in [-1i64, 0, 1] {
+                let x = (1i64 << k) + d;
+                if x <= 0x7fffffff {
+                    avals.push(x);
+                    avals.push(-x);
+                }
+            }
+        }
+        let (nu, nav) = (uops.len() as u64, avals.len() as u64);
+        v.push(Space::new("numeric-sweep-unary", nu * nav, move |case, acc| {
+            let c = crate::engine::coords(case.idx, &[nu, nav]);
+            let op = uops[c[0] as usize];
+            let st: Stack = vec![ri::enc(&num_bigint::BigInt::from(avals[c[1] as usize]))];
+            let mut toks = pushes_for(&st, &vec![]);
+            toks.push(Tok::Op(op));
+            let desc = || json!({"op": opname(op), "initial_stack": show_stack(&st)});
+            if let Some(d) = check_program(&toks, acc, case, &desc) {
+                report(acc, case, &toks, &d, &desc);
+            }
+        }));
+    }
     // (b) alt stack: every opcode with a non-empty alt stack (must stay untouched) and FROMALTSTACK/TOALTSTACK round trips
     {
         let (vals, specs) = (vals.clone(), specs.clone());
